@@ -86,6 +86,7 @@ const STAGES: &[(&str, StageFn)] = &[
     ("c12.cli", cgr::kcgr_cli),
     ("c12.large", cgr::kcgr_large),
     ("c11.huge_output", cgr::huge_output),
+    ("c12.huge_output", cgr::kcgr_huge_output),
     ("c11.manyrecs", cgr::manyrecs),
     ("c12.manyrecs", cgr::manyrecs),
     ("c14.mmap", c14::mmap),
